@@ -3,7 +3,7 @@
 use alloc::collections::VecDeque;
 use alloc::sync::Arc;
 use alloc::vec::Vec;
-use core::str::{FromStr, Utf8Error};
+use core::str::FromStr;
 
 use bytes::Bytes;
 use moka::future::Cache;
@@ -990,12 +990,20 @@ pub async fn cached_nsec3_hash(
 }
 
 /// Convert a label to an NSEC3 hash value.
+///
+/// Fails if the label is not a Base32hex encoded hash value. The label
+/// comes from the owner name of a received record, so it can be anything.
 pub fn nsec3_label_to_hash(
     label: &Label,
-) -> Result<OwnerHash<Vec<u8>>, Utf8Error> {
-    let label_str = core::str::from_utf8(label.as_ref())?;
-    Ok(OwnerHash::<Vec<u8>>::from_str(label_str).expect("should not fail"))
+) -> Result<OwnerHash<Vec<u8>>, Nsec3LabelError> {
+    let label_str =
+        core::str::from_utf8(label.as_ref()).map_err(|_| Nsec3LabelError)?;
+    OwnerHash::<Vec<u8>>::from_str(label_str).map_err(|_| Nsec3LabelError)
 }
+
+/// The first label of an NSEC3 owner name is not an encoded hash value.
+#[derive(Clone, Copy, Debug)]
+pub struct Nsec3LabelError;
 
 /// Is targethash in the range between ownerhash and nexthash?
 pub fn nsec3_in_range<O1, O2, O3>(
